@@ -30,7 +30,7 @@ ASSUMPTIONS = [
     "'packages it merges' = non-installed packages put in place by add/replace operations of state.iter_ops(True); 'installed packages it keeps' = "
     "installed packages not displaced by a replace/remove operation; blockers are counted for merged packages",
     "build-time classes (DEPEND/BDEPEND) are checked against the final package set like the others",
-    "repositories: <= 6 names x <= 3 versions, 2 slots, one source repo + one installed repo; atoms: plain, < <= = >= > ~ with revisions and "
+    "repositories: <= 6 names x <= 3 versions, 2-3 slots, one source repo + one installed repo; atoms: plain, < <= = >= > ~ with revisions and "
     "suffixes, slot deps, weak/strong blockers, any-of groups; no USE deps, no slot operators, no =* globs",
 ]
 RULE = ("three streams of repositories (each with installed database, 1-2 targets, resolver = upgrade / min-install / empty-tree): (a) key-acyclic "
@@ -39,7 +39,10 @@ RULE = ("three streams of repositories (each with installed database, 1-2 target
         "from a small per-case stock of atoms and any-of groups — the same alternatives recur (permuted, shortened, doubled) in several classes, "
         "versions and packages, as RDEPEND=\"${DEPEND}\" and version bumps make them do — including atoms nothing provides (a name no repository "
         "has, a version range or slot nobody reaches), (e) 'late-reject' repositories: highest versions given up after part of their dependencies "
-        "was planned, installed packages weakly blocked by the highest versions of several targets and displaced for them; after every resolution the real depset reorder strategy of the used resolver is compared "
+        "was planned, installed packages weakly blocked by the highest versions of several targets and displaced for them, (f) 'bootstrap' "
+        "repositories: multi-slot packages whose newer slots need another slot of their own name (slot dependency or version range, any class, "
+        "directly or through a helper, old slot installed or not, sometimes a real cycle back), requested by unslotted/slotted/ranged atoms "
+        "as targets and through multi-version consumers; after every resolution the real depset reorder strategy of the used resolver is compared "
         "with the Lean model on every clause of every package; every successful plan is decided by the Lean checker and by an "
         "independent Python evaluation; non-trivial = resolver reported success and the plan merges at least one package with a dependency clause")
 
@@ -89,6 +92,10 @@ def fixture():
         slot = property(lambda s: s._d.get("slot", "0"))
         subslot = property(lambda s: s._d.get("slot", "0"))
         built = property(lambda s: s.repo.livefs)
+        # USE state (only atoms with USE dependencies look at it; C16's lookup histories use them)
+        use = property(lambda s: frozenset(s._d.get("use", "").split()))
+        iuse = property(lambda s: frozenset(s._d.get("iuse", "").split()))
+        iuse_effective = property(lambda s: frozenset(s._d.get("iuse", "").split()))
 
         @property
         def slotted_atom(self):
@@ -396,6 +403,62 @@ def gen_reject_case(rng):
     return {"src": src, "vdb": vdb, "targets": targets[:4], "mode": "upgrade", "stream": "late-reject"}
 
 
+def gen_bootstrap_case(rng):
+    """multi-slot packages whose newer slots need ANOTHER SLOT OF THEIR OWN NAME (bootstrapping toolchains: a/c-2:2 DEPEND a/c:1) — in any
+    dependency class, directly or through a helper package, selected by a slot dependency or by a version range; the needed slot
+    installed or not; occasionally the old slot needs the new one too (a real cycle).  Such packages are requested by unslotted, slotted
+    and version-ranged atoms, as targets and through multi-version consumers with plain fall-back versions."""
+    t, h, x, x2, f = rng.sample(NAMES, 5)
+    V = VERSIONS
+    src, vdb = {}, {}
+    tv = [V[i] for i in sorted(rng.sample(range(len(V)), rng.randint(2, 3)))]
+    slots, s = [], 0
+    for i in range(len(tv)):
+        if i and rng.random() < 0.8:
+            s += 1
+        slots.append(s)
+    cls_w = ["depend", "depend", "bdepend", "rdepend", "rdepend", "idepend", "pdepend"]
+    for i, v in enumerate(tv):
+        meta = {"slot": str(slots[i])}
+        if i and rng.random() < 0.8:
+            j = rng.randrange(i)
+            on_old = rng.choice([f"a/{t}:{slots[j]}", f"a/{t}:{slots[j]}", f"<a/{t}-{v}", f"=a/{t}-{tv[j]}", f"<=a/{t}-{tv[j]}:{slots[j]}"])
+            cls = rng.choice(cls_w)
+            if rng.random() < 0.3:
+                # through a helper: the new slot needs a tool that needs the old slot
+                meta[cls] = f"a/{h}"
+                src.setdefault(f"a/{h}-1", {})[rng.choice(cls_w)] = on_old
+            else:
+                meta[cls] = on_old
+            if rng.random() < 0.12:
+                src[f"a/{t}-{tv[j]}"][rng.choice(cls_w)] = f"a/{t}:{slots[i]}"       # and back: a real cycle
+        if rng.random() < 0.2:
+            meta.setdefault(rng.choice(CLASSES), f"a/{f}")
+        src[f"a/{t}-{v}"] = meta
+    src[f"a/{f}-1"] = {}
+    hi = len(tv) - 1
+    for n in (x, x2)[: rng.randint(1, 2)]:
+        xv = [V[i] for i in sorted(rng.sample(range(len(V)), rng.randint(1, 3)))]
+        for k, v in enumerate(xv):
+            top = k == len(xv) - 1
+            if top or rng.random() < 0.3:
+                j = hi if rng.random() < 0.7 else rng.randrange(len(tv))
+                on_t = rng.choice([f"a/{t}", f"a/{t}", f"a/{t}:{slots[j]}", f">=a/{t}-{tv[j]}", f"=a/{t}-{tv[j]}"])
+                src[f"a/{n}-{v}"] = {rng.choice(cls_w): on_t}
+            else:
+                src[f"a/{n}-{v}"] = rng.choice([{}, {}, {"rdepend": f"a/{f}"}])
+        if rng.random() < 0.4:
+            vdb[f"a/{n}-{xv[0]}"] = dict(src[f"a/{n}-{xv[0]}"])
+    if rng.random() < 0.35:
+        j = rng.randrange(len(tv)) if rng.random() < 0.3 else 0
+        vdb[f"a/{t}-{tv[j]}"] = {"slot": str(slots[j])}
+    pool = [f"a/{x}", f"a/{x}", f"a/{t}", f"a/{t}", f"a/{t}:{slots[hi]}", f">=a/{t}-{tv[hi]}", f"a/{h}" if f"a/{h}-1" in src else f"a/{t}"]
+    targets = list(dict.fromkeys(rng.choice(pool) for _ in range(rng.randint(1, 2))))
+    for m in list(src.values()) + list(vdb.values()):
+        m.setdefault("slot", "0")
+    return {"src": src, "vdb": vdb, "targets": targets, "mode": rng.choice(["upgrade", "upgrade", "min", "empty"]), "stream": "bootstrap"}
+
+
 def reorder_jobs(r, U):
     """every clause of every package, as the resolver's depset reorder strategy rewrites it right now (with whatever the resolver has
     learnt so far): [(package, class, clause, what the strategy yields, flags for the Lean model)]"""
@@ -452,6 +515,12 @@ CORPUS = [
      "vdb": {}, "targets": ["a/b"], "mode": "upgrade"},
     {"src": {"a/b-3": {"rdepend": "a/c", "idepend": "|| ( >a/d-3 >a/d-3 )"}, "a/b-2": {"rdepend": "a/c"}, "a/b-1": {},
              "a/c-1": {"bdepend": "|| ( >a/d-3 a/d:7 a/d )"}, "a/d-1": {}}, "vdb": {"a/b-1": {}}, "targets": ["a/b"], "mode": "upgrade"},
+    # a package that needs ANOTHER SLOT of its own name (bootstrapping): no cycle — both slots are merged, the old one first
+    {"src": {"a/b-2": {"slot": "1", "rdepend": "a/b:0"}, "a/b-1": {}}, "vdb": {}, "targets": ["a/b"], "mode": "upgrade"},
+    {"src": {"a/d-1": {"depend": "a/b", "rdepend": "a/c"}, "a/b-2": {"slot": "1", "pdepend": "<a/b-2"}, "a/b-1": {}, "a/c-1": {}}, "vdb": {"a/c-1": {}},
+     "targets": ["a/d"], "mode": "min"},
+    {"src": {"a/b-3": {"depend": "a/c:2"}, "a/b-1": {}, "a/c-2": {"slot": "2", "depend": "a/e"}, "a/e-1": {"bdepend": "a/c:1"}, "a/c-1": {"slot": "1"}},
+     "vdb": {"a/b-1": {}}, "targets": ["a/b"], "mode": "upgrade"},
     # open finding: dependency on another version of a slot the plan fills (installed package replaced after it satisfied a dependency)
     {"src": {"a/c-1": {"rdepend": ">=a/c-3", "slot": "1"}, "a/c-3": {"slot": "1"}}, "vdb": {"a/c-3": {"slot": "1"}}, "targets": ["<a/c-2"], "mode": "upgrade"},
     # open finding: unbounded recursion through a package's own name
@@ -529,6 +598,21 @@ def key_graph(U, weak_blockers=False):
                 for a in cl:
                     if not a.blocks or (weak_blockers and not a.blocks_strongly):
                         g.setdefault(p.key, set()).add(a.key)
+    return g
+
+
+def slot_graph(U):
+    """(key, slot) graph — the resolver's own notion of 'the same package' (slot_cycles): node of p -> node of every package a plain
+    dependency atom of a package in p's key+slot can be satisfied by"""
+    g = {}
+    for p in U:
+        for cls in CLASSES:
+            for cl in getattr(p, cls).cnf_solutions():
+                for a in cl:
+                    if not a.blocks:
+                        for q in U:
+                            if a.match(q):
+                                g.setdefault((p.key, p.slot), set()).add((q.key, q.slot))
     return g
 
 
@@ -612,7 +696,7 @@ def plan_of(r, U, index):
     return plan, F, merged
 
 
-def classify(prob, U, F, merged, targets, g):
+def classify(prob, U, F, merged, targets, g, sg=None):
     """open-finding class of one property failure, or None (= a violation outside every recorded class)"""
     def contended(a):
         return any(a.match(q2) and any(q.key == q2.key and q.slot == q2.slot for q in F) for q2 in U)
@@ -625,7 +709,17 @@ def classify(prob, U, F, merged, targets, g):
         if any(contended(a) for a in plain):
             return "C15-same-slot-version-contention"
         if any(a.key == p.key or p.key in reach(g, a.key) for a in plain):
-            return "C15-dependency-cycle-assumed-satisfied"
+            # a cycle through the package's own NAME is not enough: the resolver (slot_cycles) treats a frame as cycling back only to a
+            # frame working on the same key AND slot, so the recorded class is: some candidate of an alternative sits in, or leads back
+            # to, the key+slot of the merged package.  A package that needs another slot of its own name (a/c-2:2 needs a/c:1, which
+            # needs nothing of slot 2) is on no cycle.
+            if sg is None:
+                sg = slot_graph(U)
+            me = (p.key, p.slot)
+            for a in plain:
+                for q in U:
+                    if a.match(q) and ((q.key, q.slot) == me or me in reach(sg, (q.key, q.slot))):
+                        return "C15-dependency-cycle-assumed-satisfied"
         return None
     return None
 
@@ -642,6 +736,8 @@ def run(ctx):
         cases.append(gen_case(rng, ("dag", "dag-twins", "wild")[i % 3] if i % 7 else "wild"))
     for i in range(ctx.n(280, 4000)):
         cases.append(gen_family_case(rng) if i % 5 < 3 else dict(gen_reject_case(rng), mode=rng.choice(["upgrade", "upgrade", "min", "empty"])))
+    for i in range(ctx.n(150, 3000)):
+        cases.append(gen_bootstrap_case(rng))
 
     pending = []   # (case, resolver bits) waiting for the Lean verdict
     reorders = []  # (case, package, class, clause, yielded, flags) waiting for the Lean model of the reorder strategy
@@ -770,8 +866,9 @@ def run(ctx):
             ctx.count("plan_accepted")
         else:
             g = key_graph(U)
+            sg = slot_graph(U)
             for prob in py:
-                fid = classify(prob, U, F, merged, targets, g)
+                fid = classify(prob, U, F, merged, targets, g, sg)
                 ctx.count("plan_rejected_" + (fid or "UNCLASSIFIED"))
                 what = {"target": "target not matched by any present package", "slot": "two present packages in one slot",
                         "clause": "dependency clause of a merged package without a satisfied alternative"}[prob[0]]
